@@ -18,8 +18,9 @@ var sweepFailed bool
 // enumerates the byte offsets completely: for each direction and every k from 0
 // to the size of a whole healthy handshake (connect, register, configure, synchronize) plus
 // two, the history [Start with the connection cut after k bytes] followed by the epilogue
-// every case gets (Wait returns, notifications, a fresh healthy Start, a probe, Stop). Both
-// tiers take every offset.
+// every case gets (Wait returns, notifications, a fresh healthy Start, a probe, Stop). The quick
+// tier takes every offset up to 16 bytes past the Configure exchange and every fourth one
+// inside synchronization over unix sockets; the thorough tier takes them all.
 func TestExh_C16(t *testing.T) {
 	if i, _ := ev.Shard(); i != 0 {
 		t.Skip("sweep runs in shard 0 only")
@@ -97,6 +98,60 @@ func TestExh_C16(t *testing.T) {
 			run(C16Case{Actions: acts, DelayConnClosed: dl})
 		}
 	}
+	// a raw runtime that completes the handshake with its own timeout fields, followed by
+	// runtime ends that stay silent without closing: whatever an earlier session made the stub
+	// store, Start returns in bounded time
+	if !ev.Known(knownD10) {
+		raw := func(reg, req int64, sync bool) *Script {
+			return &Script{Kind: "raw", RegMs: reg, ReqMs: req, DoSync: true, Activate: true, Sync: sync}
+		}
+		quiet := func(kind string) Action { return Action{Op: "start", Script: &Script{Kind: kind}} }
+		for _, reg := range []int64{0, -5, 1, 300} {
+			for _, sync := range []bool{false, true} {
+				run(C16Case{Actions: []Action{{Op: "start", Script: raw(reg, reg, sync)}, {Op: "probe"}, {Op: "stop"}, quiet("silent"), quiet("noconfigure"), {Op: "wait"}}})
+				run(C16Case{Actions: []Action{{Op: "start", Script: raw(reg, 2000, sync)}, {Op: "drop"}, quiet("noconfigure"), quiet("silent")}})
+			}
+		}
+		// a plugin whose Configure handler outlasts the stored timeout: Start gives up, and the
+		// handler's late result must not count for the next Start
+		for _, next := range []string{"noconfigure", "silent"} {
+			run(C16Case{Actions: []Action{{Op: "start", Script: raw(300, 300, false)}, {Op: "stop"},
+				{Op: "start", Script: &Script{Kind: "raw", RegMs: 300, ReqMs: 300, CfgDelayMs: 400}}, quiet(next), {Op: "wait"}}})
+		}
+		// stub API calls from inside handlers: Stop from each handler that runs outside the
+		// handshake, the lock-taking and the lock-free getters, UpdateContainers answered and
+		// never answered (then Stop, a drop, a restart from the harness's goroutine)
+		hooked := func(kind, in, call string) *Script {
+			return &Script{Kind: kind, Activate: true, DoSync: true, RegMs: 5000, ReqMs: 2000, Hook: &HookCall{In: in, Call: call}}
+		}
+		short := func(s *Script) *Script { s.RegMs, s.ReqMs = 300, 300; return s } // Configure stores them even if the handshake fails
+		for _, kind := range []string{"healthy", "raw"} {
+			for _, in := range []string{"synchronize", "event", "create"} {
+				run(C16Case{Actions: []Action{{Op: "start", Script: hooked(kind, in, "stop")}, {Op: "wait"}, {Op: "start", Script: hooked(kind, in, "isstarted")}, {Op: "probe"}}})
+			}
+			run(C16Case{Actions: []Action{{Op: "start", Script: hooked(kind, "configure", "timeouts")}, {Op: "probe"}, {Op: "stop"}}})
+		}
+		for _, in := range []string{"synchronize", "event", "create"} {
+			for _, end := range []string{"stop", "drop", "restart"} {
+				run(C16Case{Actions: []Action{{Op: "start", Script: hooked("raw", in, "update-unanswered")}, {Op: "wait"}, {Op: end, Script: sc("healthy")}, {Op: "probe"}}})
+			}
+			run(C16Case{Actions: []Action{{Op: "start", Script: hooked("raw", in, "update")}, {Op: "probe"}}})
+		}
+		run(C16Case{Actions: []Action{{Op: "start", Script: hooked("raw", "configure", "update")}, {Op: "probe"}}})
+		// a lock-taking call from inside Configure ends the handshake by timeout (300 ms here)
+		run(C16Case{Actions: []Action{{Op: "start", Script: raw(300, 300, false)}, {Op: "stop"},
+			{Op: "start", Script: short(hooked("raw", "configure", "stop"))}, {Op: "start", Script: short(hooked("raw", "configure", "isstarted"))}}})
+		// very large values: the silent ends are not issued, everything else goes on
+		run(C16Case{Actions: []Action{{Op: "start", Script: raw(1000000000000, 3600000, false)}, {Op: "probe"}, {Op: "bulkstop", KB: 100, WaitMs: 1}, quiet("silent"), {Op: "start", Script: sc("healthy")}, {Op: "probe"}}})
+		// the defaults of a fresh stub (5 s each) and what the adaptation sends (2 s): 14 s of
+		// waiting, thorough tier only (the generated search draws them rarely in both tiers)
+		if ev.Thorough() {
+			run(C16Case{Actions: []Action{quiet("silent")}})
+			run(C16Case{Actions: []Action{{Op: "start", Script: sc("healthy")}, {Op: "stop"}, quiet("noconfigure")}})
+			run(C16Case{Actions: []Action{quiet("noconfigure")}})
+			run(C16Case{Actions: []Action{{Op: "start", Script: sc("healthy")}, {Op: "stop"}, quiet("silent")}})
+		}
+	}
 	r.SetExtra("directed_cases", n)
 	nd := n
 
@@ -119,6 +174,7 @@ func TestExh_C16(t *testing.T) {
 	}
 	r.SetExtra("sync_sweep_cases", n-nd)
 
+	atCfg := [2]int64{h.s2rAtCfg, h.r2sAtCfg}
 	for d := 0; d < 2; d++ {
 		if d == r2s && ev.Known(knownD8) {
 			complete = false
@@ -128,6 +184,12 @@ func TestExh_C16(t *testing.T) {
 				continue
 			}
 			if ev.Known(knownD10) {
+				complete = false
+				continue
+			}
+			if !ev.Thorough() && k > atCfg[d]+16 && k%4 != 0 {
+				// quick tier: every offset up to the end of Configure, every fourth one inside
+				// synchronization (the thorough tier takes them all)
 				complete = false
 				continue
 			}
